@@ -370,6 +370,18 @@ class Exec:
             m = self.P.find_method(cls, "__eq__")
             if m:
                 return self.call_function(m[1], [a, b], {}, st, lambda r, st2: k(ops.truth(st2, r), st2), owner=m[0])
+            ci = self.P.classes.get(cls)
+            is_dc = ci is not None and any("dataclass" in ast.unparse(d) for d in ci.node.decorator_list)
+            if is_dc and isinstance(b, SRef) and isinstance(st.cell(b.ref), ObjCell) and st.cell(b.ref).cls == st.cell(a.ref).cls:
+                # @dataclass (eq=True): the generated __eq__ compares the fields pairwise
+                fa, fb = st.cell(a.ref).fields, st.cell(b.ref).fields
+                names = list(fa)
+                def go(i, acc, st2):
+                    if i == len(names): return k(z3.And(*acc) if acc else z3.BoolVal(True), st2)
+                    return self.eq(fa[names[i]], fb[names[i]], st2, lambda t, st3: go(i + 1, acc + [t], st3))
+                return go(0, [], st)
+            if is_dc:
+                return k(z3.BoolVal(False), st)
             return k(z3.BoolVal(isinstance(b, SRef) and a.ref == b.ref), st)
         if isinstance(b, SRef) and isinstance(st.cell(b.ref), ObjCell):
             return self.eq(b, a, st, k)
